@@ -178,7 +178,9 @@ func repair3Sections(r *vlib.Run) {
 		damaged = shuffleTris(rng, damaged)
 		m := meshOf(damaged)
 		dref := analyze3(damaged)
+		beforeRep := snap3(m)
 		out := m.Repair(eps)
+		untouched3(c, "model3d.Mesh.Repair", m, beforeRep)
 		c.Count("repair3.decided", 1)
 		c.Count("repair3.split_vertices", int64(splits))
 		if dref.needsRepair() {
